@@ -137,7 +137,12 @@ def corpus_cases():
     out = []
     for op, vals in CORPUS:
         kid, loops = loops_from_op(op)
-        out.append(Case(kid, loops, vals))
+        c = Case(kid, loops, vals)
+        # F70 replay: today the translators accept the header (the execution oracle then reports the known finding);
+        # once a direction guard lands in the oklForStatement ctor (ag-okl's F70 patch) they reject it and there is
+        # nothing to run.  Both are fine; the text model (which has no such guard) is not compared for this entry.
+        c.text_exempt = (kid == 9009)
+        out.append(c)
     return out
 
 
